@@ -24,6 +24,7 @@ type Loaded struct {
 	Funcs    map[string]*ssa.Function // by RelString
 	Overlay  string                   // text of generated file
 	Tags     string
+	AssertVars map[string][]loopVar // assert clause function -> its parameters (function parameters and top-level locals)
 	LoopVars map[string][]loopInfo // target func -> loops in source order
 	Stale    []string              // contract problems (stale contracts)
 	Repo     string
@@ -79,7 +80,7 @@ func Load(repo, tags string) (*Loaded, error) {
 		return nil, fmt.Errorf("package does not type-check: %v", p1.Errors[0])
 	}
 	applyKnown(con, preLoadKnown)
-	L := &Loaded{Con: con, Tags: tags, LoopVars: map[string][]loopInfo{}, Repo: repo}
+	L := &Loaded{Con: con, Tags: tags, LoopVars: map[string][]loopInfo{}, AssertVars: map[string][]loopVar{}, Repo: repo}
 	ov, stale := genOverlay(p1, con, L)
 	L.Stale = append(L.Stale, stale...)
 	L.Stale = append(L.Stale, con.Errors...)
@@ -358,6 +359,7 @@ func genOverlay(p *packages.Package, con *Contracts, L *Loaded) (string, []strin
 	w("func __has[K comparable, V any](m map[K]V, k K) bool { return true }\n")
 	w("func __same[T any](a, b T) bool { return true }\n")
 	w("func __fresh(x any) bool { return true }\n")
+	w("func __disjoint[T any](a, b []T) bool { return true }\n")
 	// aliases for types whose names are commonly shadowed by parameter names
 	for _, tn := range []string{"table", "archetype", "column", "filter", "cache", "lock", "node", "graph", "storage"} {
 		if p.Types.Scope().Lookup(tn) != nil {
@@ -441,7 +443,22 @@ func genOverlay(p *packages.Package, con *Contracts, L *Loaded) (string, []strin
 					staleFuncs[cl.FuncName] = true
 					continue
 				}
-				w("%sfunc %s%s(%s) bool {\n\treturn %s\n}\n", origin, cl.FuncName, tparams, strings.Join(params, ", "), e)
+				// parameters plus the function's top-level local variables (values at the call site)
+				var aps []string
+				seenA := map[string]bool{}
+				var avars []loopVar
+				if fd != nil && fd.Body != nil {
+					avars = varsAt(p, fd, fd.Body.Rbrace, nil)
+				}
+				for _, v := range avars {
+					if seenA[v.Name] || v.Name == "_" {
+						continue
+					}
+					seenA[v.Name] = true
+					aps = append(aps, v.Name+" "+strings.Replace(g.typ(v.Type), "...", "[]", 1))
+				}
+				L.AssertVars[cl.FuncName] = avars
+				w("%sfunc %s%s(%s) bool {\n\treturn %s\n}\n", origin, cl.FuncName, tparams, strings.Join(aps, ", "), e)
 			case "requires", "panics", "assumes":
 				e, err := rewriteSpec(cl.Text)
 				if err != nil {
@@ -495,7 +512,10 @@ func genOverlay(p *packages.Package, con *Contracts, L *Loaded) (string, []strin
 						continue
 					}
 					lv = lvr
-					if strings.HasSuffix(lv, "]") {
+					if k := strings.Index(lv, "[*]."); k >= 0 && !strings.Contains(lv[k+4:], "[") {
+						// x[*].f.g : field f.g of every element of slice x
+						w("\t__r = append(__r, \"allfield\", any(%s), %q)\n", lv[:k], lv[k+4:])
+					} else if strings.HasSuffix(lv, "]") {
 						i := lastOpen(lv)
 						b, idx := lv[:i], lv[i+1:len(lv)-1]
 						if strings.TrimSpace(idx) == "*" {
